@@ -370,5 +370,107 @@ def item_applycal_wiring(repo, out):
     out.append('Definition applycal_wiring_checked : bool := true.')
 
 
+def _codes(text):
+    return '[' + '; '.join('%d%%Z' % ord(ch) for ch in text) + ']'
+
+
+def _nf(text):
+    """a template in the translator's normal form, without white space"""
+    from vh.translate import normalise_source
+    return normalise_source(text).replace(' ', '').replace('\n', '')
+
+
+def item_applycal_name(repo, out):
+    """The dask name of the corrections array and the chunk rule at the head of calc_correction (fail-closed):
+    head:  shape = tuple(sum(bd) for bd in chunks); if len(chunks[2]) > N: chunks = (chunks[0], chunks[1], (shape[2],))
+    tail:  final_cal_products = list(corrections.keys()); if not final_cal_products: return final_cal_products, None;
+           params = ...; name = FORMAT.format(SEP.join(sorted(final_cal_products))[, uuid.uuid4().hex]);
+           return final_cal_products, da.map_blocks(_correction_block, ..., chunks=chunks, name=name, params=params)
+    Regenerated: the pieces of FORMAT, SEP (one character), whether the products are sorted, whether a per-call
+    token (uuid4) is part of the name, N."""
+    rel = 'katdal/applycal.py'
+    tree = _parse(repo, rel)
+    fn = _find_func(tree, 'calc_correction', rel)
+    body = [x for x in fn.body if not (isinstance(x, ast.Expr) and isinstance(x.value, ast.Constant))]
+    # ---- head
+    if _norm(body[0]) != _nf('shape = tuple(sum(bd) for bd in chunks)'):
+        raise TranslateError('%s: calc_correction does not start with shape = tuple(sum(bd) for bd in chunks)' % rel)
+    st = body[1]
+    if not (isinstance(st, ast.If) and not st.orelse and isinstance(st.test, ast.Compare)
+            and len(st.test.ops) == 1 and _norm(st.test.left) == 'len(chunks[2])'
+            and isinstance(st.test.comparators[0], ast.Constant) and type(st.test.comparators[0].value) is int
+            and [_norm(x) for x in st.body] == [_nf('chunks = (chunks[0], chunks[1], (shape[2],))')]):
+        raise TranslateError('%s: calc_correction: baseline chunk rule not of the expected shape' % rel)
+    n = st.test.comparators[0].value
+    if isinstance(st.test.ops[0], ast.Gt):
+        limit = n
+    elif isinstance(st.test.ops[0], ast.GtE):
+        limit = n - 1
+    else:
+        raise TranslateError('%s: calc_correction: baseline chunk rule uses an unexpected comparison' % rel)
+    if limit < 0:
+        raise TranslateError('%s: calc_correction: baseline chunk rule limit negative' % rel)
+    # chunks must not be reassigned anywhere else, shape not at all
+    for var, count in (('chunks', 1), ('shape', 1)):
+        k = sum(1 for a in ast.walk(fn) if isinstance(a, (ast.Assign, ast.AugAssign, ast.AnnAssign))
+                for t in (a.targets if isinstance(a, ast.Assign) else [a.target])
+                for nm in ast.walk(t) if isinstance(nm, ast.Name) and nm.id == var)
+        if k != count:
+            raise TranslateError('%s: calc_correction: %s assigned %d times (expected %d)' % (rel, var, k, count))
+    # ---- tail
+    tail = body[-5:]
+    if len(tail) != 5 or not isinstance(tail[3], ast.Assign) or _norm(tail[3].targets[0]) != 'name':
+        raise TranslateError('%s: calc_correction: tail not of the expected shape' % rel)
+    want = [_nf('final_cal_products = list(corrections.keys())'),
+            _nf('if not final_cal_products:\n    return final_cal_products, None'),
+            _nf('params = CorrectionParams(inputs, input1_index, input2_index, corrections, channel_maps)'),
+            None,
+            _nf('return (final_cal_products, da.map_blocks(_correction_block, dtype=np.complex64, chunks=chunks, '
+                'name=name, params=params))')]
+    for k, w in enumerate(want):
+        if w is not None and _norm(tail[k]) != w:
+            raise TranslateError('%s: calc_correction: statement %d of the tail is %s' % (rel, k, _norm(tail[k])))
+    if sum(1 for a in ast.walk(fn) if isinstance(a, ast.Assign) for t in a.targets if _norm(t) == 'name') != 1:
+        raise TranslateError('%s: calc_correction: name assigned more than once' % rel)
+    v = tail[3].value
+    if not (isinstance(v, ast.Call) and isinstance(v.func, ast.Attribute) and v.func.attr == 'format'
+            and isinstance(v.func.value, ast.Constant) and isinstance(v.func.value.value, str) and not v.keywords
+            and 1 <= len(v.args) <= 2):
+        raise TranslateError('%s: calc_correction: name is not FORMAT.format(...)' % rel)
+    fmt = v.func.value.value
+    pieces = fmt.split('{}')
+    if '{' in ''.join(pieces) or '}' in ''.join(pieces) or len(pieces) != len(v.args) + 1:
+        raise TranslateError('%s: calc_correction: unexpected format string %r' % (rel, fmt))
+    j = v.args[0]
+    if not (isinstance(j, ast.Call) and isinstance(j.func, ast.Attribute) and j.func.attr == 'join'
+            and isinstance(j.func.value, ast.Constant) and isinstance(j.func.value.value, str)
+            and len(j.func.value.value) == 1 and len(j.args) == 1 and not j.keywords):
+        raise TranslateError('%s: calc_correction: first name field is not SEP.join(...) with a one-character SEP' % rel)
+    sep = j.func.value.value
+    arg = _norm(j.args[0])
+    if arg == 'sorted(final_cal_products)':
+        is_sorted = True
+    elif arg == 'final_cal_products':
+        is_sorted = False
+    else:
+        raise TranslateError('%s: calc_correction: the name joins %s' % (rel, arg))
+    per_call = False
+    if len(v.args) == 2:
+        imports = {a.name for n_ in tree.body if isinstance(n_, ast.Import) for a in n_.names if a.asname is None}
+        if _norm(v.args[1]) != 'uuid.uuid4().hex' or 'uuid' not in imports or pieces[2] != '':
+            raise TranslateError('%s: calc_correction: second name field is not a trailing uuid.uuid4().hex' % rel)
+        if any(isinstance(a, (ast.Assign, ast.AugAssign)) and 'uuid' in
+               [nm.id for t in (a.targets if isinstance(a, ast.Assign) else [a.target])
+                for nm in ast.walk(t) if isinstance(nm, ast.Name)] for a in ast.walk(tree)):
+            raise TranslateError('%s: the name uuid is rebound' % rel)
+        per_call = True
+    out.append('Definition applycal_name_prefix : list Z := %s.' % _codes(pieces[0]))
+    out.append('Definition applycal_name_mid : list Z := %s.' % _codes(pieces[1]))
+    out.append('Definition applycal_name_sep_code : Z := %d%%Z.' % ord(sep))
+    out.append('Definition applycal_name_sorted : bool := %s.' % ('true' if is_sorted else 'false'))
+    out.append('Definition applycal_name_per_call : bool := %s.' % ('true' if per_call else 'false'))
+    out.append('Definition applycal_bl_chunks_limit : nat := %d%%nat.' % limit)
+
+
 ITEMS = [item_applycal_kernels, item_applycal_channel_map, item_applycal_solutions, item_applycal_product_loop,
-         item_applycal_wiring]
+         item_applycal_wiring, item_applycal_name]
